@@ -8,10 +8,13 @@ Since the repair of the data directives (single FCB / FDB values are fitted to t
 `fitWidth` after the address pass, negatives in two's complement, misfits refused; list elements likewise; RMB and
 ORG insist on a non-negative number; FCB FDB RMB ORG evaluate symbols and expressions) the property HOLDS at
 full strength on the operand level: `C05_full`.  What remains outside is recorded by the `C05_finding_*`
-theorems (symbols inside a LIST, empty list elements, the one-character FCC).
+theorems (symbols inside a LIST, empty list elements, the one-character FCC).  An FCC string is taken from the
+line as it was written (fix d74c37d): `C05_FCC_line_as_written`, `C05_finding_FCC_rebuilt_fixed`.
 -/
 import CoCoVerif.Lemmas.EncodeData
 import CoCoVerif.Lemmas.EncodeProgram
+import CoCoVerif.Lemmas.EncodeResolve
+import CoCoVerif.Lemmas.EncodeFccLine
 
 namespace CoCo.Props
 open CoCo CoCo.Asm
@@ -405,15 +408,15 @@ theorem resolveOperand_pseudo_symbol {o : Operand} {row : InstrRow} {t : SymTab}
   · have a : ¬ ((v : Int) > 65535) := by omega
     have b : ¬ ((v : Int) < 0) := by omega
     by_cases hlt' : v < 256 <;>
-      simp [Value.resolve, ht, Value.isAddress, Value.isNumeric, numericOfInt, a, b, initHint, postInit, hlt', Except.map]
+      simp [resolve_symbol_of_get ht rfl, symPost, Value.isAddress, Value.isNumeric, numericOfInt, a, b, initHint, postInit, hlt', Except.map]
   · have a : ¬ (-(v : Int) > 65535) := by omega
     have e : (-(v : Int)).natAbs = v := by omega
     by_cases h0 : 0 < v
     · by_cases hlt' : v < 256 <;>
-        simp [Value.resolve, ht, Value.isAddress, Value.isNumeric, numericOfInt, a, e, initHint, postInit, hlt', h0, Except.map]
+        simp [resolve_symbol_of_get ht rfl, symPost, Value.isAddress, Value.isNumeric, numericOfInt, a, e, initHint, postInit, hlt', h0, Except.map]
     · have hz : v = 0 := by omega
       subst hz
-      simp [Value.resolve, ht, Value.isAddress, Value.isNumeric, numericOfInt, initHint, postInit, Except.map]
+      simp [resolve_symbol_of_get ht rfl, symPost, Value.isAddress, Value.isNumeric, numericOfInt, initHint, postInit, Except.map]
 
 /-- **C05, `FCB SYM`** with `SYM EQU v`, v < 256: the byte `v` (before the repair: `$00`) -/
 theorem C05_FCB_symbol {o : Operand} {row : InstrRow} {t : SymTab} {name : Str} {mo : Mode} {v : Nat}
@@ -501,7 +504,7 @@ theorem C05_undefined_symbol {o : Operand} {row : InstrRow} {t : SymTab} {name :
     rcases hm with hm | hm | hm | hm <;> simp [hm]
   unfold resolveOperand
   rw [hk]
-  simp [hmn, hv, Value.isSymbol, Value.resolve, ht, Except.map]
+  simp [hmn, hv, Value.isSymbol, resolve_symbol_undefined ht, Except.map]
 
 /-! ### FCC -/
 
@@ -790,6 +793,97 @@ theorem C05_program_rejected (fs : Files) :
 theorem C05_program_FCC_single_char (fs : Files) : assemble fs (prog [" FCC A\n"]) = .diag :=
   progDiag_sound (by decide +kernel) fs
 
+/-! ### FCC: the string is taken from the line as it was written (fix d74c37d; finding D3 closed)
+
+Before the fix `parse_line` rebuilt the FCC operand from the `operands` and `comment` groups of ASM_LINE_REGEX (joined by
+ONE blank): a run of blanks inside the string collapsed and a `;` after a blank was lost with the blanks around it.  Now
+the text from the start of the `operands` group to the end of the line is used (`rstrip (operandsTail line)`). -/
+
+/-- **C05, an FCC line in general**: on the line `label FCC d body d tail` — `d` any non-blank delimiter, `body` ANY
+text of 8-bit characters without `d` and without a newline (blanks, runs of blanks, `;`, characters outside the operand
+class: all kept), `tail` not ending in a blank — the statement carries exactly the string `body`; the comment is `tail`
+without its blanks and leading semicolons -/
+theorem C05_FCC_line_as_written (label : Str) (d : Char) (body tail : Str) (hl : ∀ c ∈ label, isLabelCh c = true)
+    (hdsp : isSpace d = false) (hd : d ∉ body) (hb : ∀ c ∈ body, c.toNat < 256)
+    (hnl : '\n' ∉ d :: (body ++ d :: tail)) (ht : ∀ c ∈ tail.getLast?, isSpace c = false) :
+    parseLine (label ++ ' ' :: (str "FCC" ++ ' ' :: (d :: (body ++ d :: tail)))) = .ok (some {
+      label := label, mnemonic := str "FCC", row := fccRow,
+      operand := { kind := .pseudo, text := d :: (body ++ [d]), value := .str body },
+      origText := d :: (body ++ [d]), comment := strip ((strip tail).dropWhile (· == ';')) }) := by
+  have hm : ∀ c ∈ str "FCC", isWord c = true := by decide
+  have hr : ∀ c ∈ (d :: (body ++ d :: tail)).head?, isSpace c = false := by
+    intro c hc; simp at hc; subst hc; exact hdsp
+  have hscan := scanLine_line label (str "FCC") (d :: (body ++ d :: tail)) hl hm (by decide) hr
+  rw [dotStarEnd_of_noNewline _ (not_mem_dropWhile (not_mem_dropWhile (not_mem_dropWhile hnl)))] at hscan
+  have hlast : ∀ c ∈ (d :: (body ++ d :: tail)).getLast?, isSpace c = false := by
+    intro c hc
+    have e : d :: (body ++ d :: tail) = (d :: body ++ [d]) ++ tail := by simp
+    rw [e, List.getLast?_append] at hc
+    cases hg : tail.getLast? with
+    | none =>
+      rw [hg] at hc
+      have e2 : (d :: body ++ [d]).getLast? = some d := by rw [List.getLast?_append]; simp
+      simp only [Option.none_or, Option.mem_def] at hc
+      rw [e2] at hc; cases hc; exact hdsp
+    | some x => rw [hg] at hc; simp at hc; subst hc; exact ht _ (by rw [hg]; rfl)
+  have hoo : rstrip (operandsTail (label ++ ' ' :: (str "FCC" ++ ' ' :: (d :: (body ++ d :: tail))))) =
+      d :: (body ++ d :: tail) := by
+    rw [operandsTail_line label (str "FCC") _ hl hm (by decide) hr]
+    have := rstrip_append_blanks (d :: (body ++ d :: tail)) [] hlast (by simp)
+    simpa using this
+  exact parseLine_fcc d body tail hscan rows_generated.2.2.2.1 rfl hoo hd hdsp
+    (createOperand_fcc (row := fccRow) rfl rfl rfl rfl rfl rfl d body hb)
+
+/-- ... and the bytes of that statement are the character codes of `body` -/
+theorem C05_FCC_line_bytes (label : Str) (d : Char) (body tail : Str) (hl : ∀ c ∈ label, isLabelCh c = true)
+    (hdsp : isSpace d = false) (hd : d ∉ body) (hb : ∀ c ∈ body, c.toNat < 256)
+    (hnl : '\n' ∉ d :: (body ++ d :: tail)) (ht : ∀ c ∈ tail.getLast?, isSpace c = false) :
+    ∃ s, parseLine (label ++ ' ' :: (str "FCC" ++ ' ' :: (d :: (body ++ d :: tail)))) = .ok (some s) ∧
+      s.operand.value = .str body ∧ PseudoEmits s.operand s.row (body.map Char.toNat) :=
+  ⟨_, C05_FCC_line_as_written label d body tail hl hdsp hd hb hnl ht, rfl, C05_FCC rfl rfl hb⟩
+
+/-- the string and the comment `parseLine` finds on a line (`none`: not a statement with a string operand) -/
+def fccOf (line : Str) : Option (Str × Str) :=
+  match parseLine line with
+  | .ok (some s) => (match s.operand.value with | .str b => some (b, s.comment) | _ => none)
+  | _ => none
+
+theorem fccOf_sound {line b c : Str} (h : fccOf line = some (b, c)) :
+    ∃ s, parseLine line = .ok (some s) ∧ s.operand.value = .str b ∧ s.comment = c := by
+  unfold fccOf at h
+  split at h
+  · rename_i s hs
+    split at h
+    · rename_i b' hv
+      simp only [Option.some.injEq, Prod.mk.injEq] at h
+      exact ⟨s, hs, by rw [hv, h.1], h.2⟩
+    · cases h
+  · cases h
+
+/-- REPAIRED (fix d74c37d; finding D3: the string was rebuilt from two regex groups): kernel-checked lines, with the
+final newline a file gives.  `MSG FCC 'a  b;c'` keeps its two blanks and its `;`; a comment after the closing
+delimiter is still a comment, with or without `;`; blanks at the end of the line are not part of anything -/
+theorem C05_finding_FCC_rebuilt_fixed :
+    fccOf (str "MSG FCC 'a  b;c'\n") = some (str "a  b;c", []) ∧
+    fccOf (str "MSG FCC 'a  b;c'  ; note\n") = some (str "a  b;c", str "note") ∧
+    fccOf (str " FCC /a b/ hello  \n") = some (str "a b", str "hello") ∧
+    fccOf (str " FCC \"x ; y\"\n") = some (str "x ; y", []) := by decide +kernel
+
+/-- the same through `assemble`: `MSG FCC 'a  b;c'` is the six bytes `61 20 20 62 3B 63` -/
+theorem C05_program_FCC_as_written (fs : Files) :
+    ∃ a, assemble fs (prog ["MSG FCC 'a  b;c'\n", " FCC /x ; y/ ; note\n"]) = .ok a ∧
+      a.image = some [0x61, 0x20, 0x20, 0x62, 0x3B, 0x63, 0x78, 0x20, 0x3B, 0x20, 0x79] := by
+  obtain ⟨a, ha, hc⟩ := progCheck_sound
+    (check := fun a => a.image == some [0x61, 0x20, 0x20, 0x62, 0x3B, 0x63, 0x78, 0x20, 0x3B, 0x20, 0x79])
+    (lines := prog ["MSG FCC 'a  b;c'\n", " FCC /x ; y/ ; note\n"]) (by decide +kernel) fs
+  exact ⟨a, ha, by simpa using hc⟩
+
+/-- the general theorem is met by a real line -/
+example : ∃ s, parseLine (str "MSG FCC 'a  b;c' ;note") = .ok (some s) ∧ s.operand.value = .str (str "a  b;c") ∧
+    s.comment = str "note" :=
+  ⟨_, C05_FCC_line_as_written (str "MSG") '\'' (str "a  b;c") (str " ;note") (by decide) (by decide) (by decide)
+    (by decide) (by decide) (by decide), rfl, by decide⟩
+
 /-! ### the property -/
 
 /-- the integer a numeric value stands for -/
@@ -919,4 +1013,7 @@ open CoCo.Props
 #print axioms C05_FDB_symbol_neg
 #print axioms C05_program_negative_symbol
 #print axioms C05_program_FDB_label
+#print axioms C05_FCC_line_as_written
+#print axioms C05_finding_FCC_rebuilt_fixed
+#print axioms C05_program_FCC_as_written
 end axioms
